@@ -1,7 +1,6 @@
 package vc
 
 import (
-	"fmt"
 	"go/token"
 	"go/types"
 	"sort"
@@ -51,7 +50,7 @@ func (fr *Frame) resolveTarget(sc *Scope, mt ModTarget) []resolvedTarget {
 		var obj, off, ln Term
 		var et types.Type
 		if at, ok := ptrToArray(b); ok {
-			obj, off, ln, et = b.Term(), BV(0, 64), BV(at.Len(), 64), at.Elem()
+			obj, off, ln, et = b.Term(), IntT(0), IntT(at.Len()), at.Elem()
 		} else if sl, ok := b.T.Underlying().(*types.Slice); ok {
 			obj, off, ln, et = b.Obj(), b.Off(), b.Len(), sl.Elem()
 			if e.Hi == nil && e.Lo == nil {
@@ -62,22 +61,31 @@ func (fr *Frame) resolveTarget(sc *Scope, mt ModTarget) []resolvedTarget {
 		}
 		lo := off
 		if e.Lo != nil {
-			lo = BVOp("bvadd", off, fr.toIdx(fr.evalExpr(sc, e.Lo)))
+			lo = IAdd(off, fr.toIdx(fr.evalExpr(sc, e.Lo)))
 		}
-		hi := BVOp("bvadd", off, ln)
+		hi := IAdd(off, ln)
 		if e.Hi != nil {
-			hi = BVOp("bvadd", off, fr.toIdx(fr.evalExpr(sc, e.Hi)))
+			if ce, ok := e.Hi.(*ECond); ok {
+				// conditional upper bound: keep the ite outermost so that small constant
+				// ranges can be havocked by stores instead of a quantified axiom
+				c := fr.evalBool(sc, ce.C)
+				a := IAdd(off, fr.toIdx(fr.evalExpr(sc, ce.A)))
+				b := IAdd(off, fr.toIdx(fr.evalExpr(sc, ce.B)))
+				hi = Ite(c, a, b)
+			} else {
+				hi = IAdd(off, fr.toIdx(fr.evalExpr(sc, e.Hi)))
+			}
 		}
 		return []resolvedTarget{{text: mt.Text, isRange: true, obj: obj, lo: lo, hi: hi, elemT: et}}
 	case *EIndex:
 		b := fr.evalExpr(sc, e.X)
 		i := fr.toIdx(fr.evalExpr(sc, e.I))
 		if at, ok := ptrToArray(b); ok {
-			return []resolvedTarget{{text: mt.Text, isRange: true, obj: b.Term(), lo: i, hi: BVOp("bvadd", i, BV(1, 64)), elemT: at.Elem()}}
+			return []resolvedTarget{{text: mt.Text, isRange: true, obj: b.Term(), lo: i, hi: IAdd(i, IntT(1)), elemT: at.Elem()}}
 		}
 		if sl, ok := b.T.Underlying().(*types.Slice); ok {
-			lo := BVOp("bvadd", b.Off(), i)
-			return []resolvedTarget{{text: mt.Text, isRange: true, obj: b.Obj(), lo: lo, hi: BVOp("bvadd", lo, BV(1, 64)), elemT: sl.Elem()}}
+			lo := IAdd(b.Off(), i)
+			return []resolvedTarget{{text: mt.Text, isRange: true, obj: b.Obj(), lo: lo, hi: IAdd(lo, IntT(1)), elemT: sl.Elem()}}
 		}
 		cfail("modifies target %s is not indexable", mt.Text)
 	case *EUn:
@@ -103,7 +111,19 @@ func (fr *Frame) resolveTarget(sc *Scope, mt ModTarget) []resolvedTarget {
 			// obj(s): the whole backing object of s
 			b := fr.evalExpr(sc, e.Args[0])
 			if sl, ok := b.T.Underlying().(*types.Slice); ok {
-				return []resolvedTarget{{text: mt.Text, isRange: true, whole: true, obj: b.Obj(), lo: BV(0, 64), hi: BV(0, 64), elemT: sl.Elem()}}
+				return []resolvedTarget{{text: mt.Text, isRange: true, whole: true, obj: b.Obj(), lo: IntT(0), hi: IntT(0), elemT: sl.Elem()}}
+			}
+			if mp, ok := b.T.Underlying().(*types.Map); ok {
+				// the whole content of the map
+				ks := fr.mapKeySort(mp)
+				rt := resolvedTarget{text: mt.Text, isField: true, ref: b.Term()}
+				rt.heaps = append(rt.heaps, mapHeapHas(b.T))
+				rt.sorts = append(rt.sorts, ArrSort(ks, SBool))
+				for _, c := range fr.en.layout(mp.Elem()) {
+					rt.heaps = append(rt.heaps, mapHeapVal(b.T, c.Path))
+					rt.sorts = append(rt.sorts, ArrSort(ks, c.Sort))
+				}
+				return []resolvedTarget{rt}
 			}
 		}
 	}
@@ -145,7 +165,7 @@ func (fr *Frame) fieldTargets(sc *Scope, base Val, name, text string) []resolved
 			}
 			return out
 		case *types.Array:
-			return []resolvedTarget{{text: text, isRange: true, whole: true, obj: fr.subRef(ref, sname, cst, i), lo: BV(0, 64), hi: BV(u.Len(), 64), elemT: u.Elem()}}
+			return []resolvedTarget{{text: text, isRange: true, whole: true, obj: fr.subRef(ref, sname, cst, i), lo: IntT(0), hi: IntT(u.Len()), elemT: u.Elem()}}
 		}
 		rt := resolvedTarget{text: text, isField: true, ref: ref}
 		for _, c := range fr.en.layout(f.Type()) {
@@ -174,16 +194,23 @@ func (fr *Frame) havocTargets(st *State, tgs []resolvedTarget) {
 				old := fr.ctx.Def("old", fr.objArray(st, t.obj, t.elemT, k))
 				na := fr.ctx.Fresh("hv", old.Sort)
 				if !t.whole {
-					if n, ok := rangeConstLen(t.lo, t.hi); ok && n <= 8 {
+					cond, hi := True, t.hi
+					if strings.HasPrefix(hi.S, "(ite ") {
+						// conditional small range: (ite C (lo+n) lo)
+						if tr := parseSx(hi.S); len(tr.kids) == 4 && tr.kids[3].String() == t.lo.S {
+							cond, hi = Term{tr.kids[1].String(), SBool}, Term{tr.kids[2].String(), SInt}
+						}
+					}
+					if n, ok := rangeConstLen(t.lo, hi); ok && n <= 8 {
 						arr := old
 						for i := int64(0); i < n; i++ {
-							arr = Store(arr, BVOp("bvadd", t.lo, BV(i, 64)), fr.ctx.Fresh("hv", c.Sort))
+							arr = Store(arr, IAdd(t.lo, IntT(i)), fr.ctx.Fresh("hv", c.Sort))
 						}
-						fr.setObjArray(st, t.obj, t.elemT, k, arr)
+						fr.setObjArray(st, t.obj, t.elemT, k, Ite(cond, arr, old))
 						continue
 					}
-					j := Term{"j!hv", SBV64}
-					inr := And(BVCmp("bvsle", t.lo, j), BVCmp("bvslt", j, t.hi))
+					j := Term{"j!hv", SInt}
+					inr := InRange(j, t.lo, t.hi)
 					fr.assume(st, Forall([]Term{j}, Implies(Not(inr), Eq(Select(na, j), Select(old, j))), Select(na, j)))
 				}
 				fr.setObjArray(st, t.obj, t.elemT, k, na)
@@ -194,20 +221,53 @@ func (fr *Frame) havocTargets(st *State, tgs []resolvedTarget) {
 }
 
 func rangeConstLen(lo, hi Term) (int64, bool) {
-	// hi == (bvadd lo (_ bvN 64)) syntactically
-	pre := "(bvadd " + lo.S + " (_ bv"
-	if strings.HasPrefix(hi.S, pre) {
-		var n int64
-		if _, err := fmt.Sscanf(hi.S[len(pre):], "%d 64))", &n); err == nil {
-			return n, true
-		}
-	}
-	if a, ok := constLen(lo); ok {
-		if b, ok := constLen(hi); ok {
+	if a, ok := isIntLit(lo); ok {
+		if b, ok := isIntLit(hi); ok {
 			return b - a, true
 		}
 	}
-	return 0, false
+	// hi == lo + n  with both written as sums: compare after flattening
+	la, lc := flattenSum(lo)
+	ha, hc := flattenSum(hi)
+	if len(la) != len(ha) {
+		return 0, false
+	}
+	used := make([]bool, len(ha))
+	for _, x := range la {
+		found := false
+		for k, y := range ha {
+			if !used[k] && x == y {
+				used[k], found = true, true
+				break
+			}
+		}
+		if !found {
+			return 0, false
+		}
+	}
+	return hc - lc, true
+}
+
+// flattenSum splits a term built from binary (+ a b) into its non-literal atoms and the literal sum.
+func flattenSum(t Term) ([]string, int64) {
+	var atoms []string
+	var c int64
+	var rec func(n *sx)
+	rec = func(n *sx) {
+		if n.kids != nil && len(n.kids) == 3 && n.kids[0].isAtom("+") {
+			rec(n.kids[1])
+			rec(n.kids[2])
+			return
+		}
+		s := n.String()
+		if v, ok := isIntLit(Term{s, SInt}); ok {
+			c += v
+			return
+		}
+		atoms = append(atoms, s)
+	}
+	rec(parseSx(t.S))
+	return atoms, c
 }
 
 // frameObligations: every pre-existing location outside the targets is unchanged.
@@ -239,7 +299,7 @@ func (fr *Frame) frameObligations(st *State, preHeaps map[string]Term, alloc0 Te
 		var goal Term
 		if strings.HasPrefix(hn, "M:") {
 			// element memory: per object, per index
-			j := Term{"j!fr", SBV64}
+			j := Term{"j!fr", SInt}
 			var excl []Term
 			for _, t := range tgs {
 				if !t.isRange {
@@ -257,7 +317,7 @@ func (fr *Frame) frameObligations(st *State, preHeaps map[string]Term, alloc0 Te
 				if t.whole {
 					excl = append(excl, Eq(r, t.obj))
 				} else {
-					excl = append(excl, And(Eq(r, t.obj), BVCmp("bvsle", t.lo, j), BVCmp("bvslt", j, t.hi)))
+					excl = append(excl, And(Eq(r, t.obj), InRange(j, t.lo, t.hi)))
 				}
 			}
 			goal = Forall([]Term{r, j}, Implies(And(old, Not(Or(excl...))), Eq(Select(Select(now, r), j), Select(Select(pre, r), j))))
@@ -372,7 +432,7 @@ func (fr *Frame) heapNamesOfElems(sliceT types.Type, set map[string]bool) {
 		hn := elemHeap(sl.Elem(), c.Path)
 		set[hn] = true
 		if _, ok := fr.top.heapSorts[hn]; !ok {
-			fr.top.heapSorts[hn] = ArrSort(SInt, ArrSort(SBV64, c.Sort))
+			fr.top.heapSorts[hn] = ArrSort(SInt, ArrSort(SInt, c.Sort))
 		}
 	}
 }
